@@ -15,7 +15,7 @@ from pv.canon import T
 
 ID = "C03"
 COQ_REQUIRE = "C03.Run"
-SHARD = 120
+SHARD = 250
 CASE_TIMEOUT = 30
 
 from props import _c03_world as W  # noqa: E402  (no psutil import at module level)
@@ -47,13 +47,17 @@ ORACLE_ONLY = ()                                            # (as_dict() only, w
 KMAX = {"as_dict": 70}                                      # upper bound of its access count (checked at run time)
 PAIRS = (["name", "ppid"], ["uids", "gids", "username"], ["memory_full_info", "memory_maps", "memory_info"],
          ["exe", "cmdline", "status"], ["open_files", "num_fds", "threads"])
+KIND_SENSITIVE = ("exe", "cwd", "cmdline", "name", "environ", "memory_maps", "memory_maps_grouped", "memory_full_info",
+                  "open_files", "threads", "net_connections", "num_fds", "io_counters", "status")
 TREE = ("parent", "parents", "children", "children_rec")    # calls that query other Process objects too
 ALLOWED = ("NoSuchProcess", "ZombieProcess", "AccessDenied")
 PSUTIL_ERRORS = ALLOWED + ("TimeoutExpired",)
 
 RULE = ("every Linux Process query reachable through psutil.Process (all of psutil._as_dict_attrnames, is_running, wait(0), "
         "parent, parents, children, children(recursive), as_dict() in full and for attribute groups sharing a oneshot cache, "
-        "oneshot() blocks (first exception leaves / every call guarded), process_iter(attrs)) x base kind {live with "
+        "oneshot() blocks (first exception leaves / every call guarded), process_iter(attrs)); live native cases (a real child at every nice value "
+        "-20..19 queried through the scratch-built C extension after a chosen failing call in the same thread); the "
+        "fake-kernel cases: x base kind {live with "
         "'(deleted)' links and mappings, kernel thread, zombie, live with racing descriptor/thread/smaps_rollup} x "
         "EVERY access index k of the call -- procfs accesses, per-process system calls and the accesses outside procfs "
         "(os.stat of link targets, of '(deleted)' paths of exe/cwd/fd links and smaps mappings, isfile/access of "
@@ -76,7 +80,7 @@ ASSUMPTIONS = ["the first read of an opened procfs file is the only read access 
                "data returned by a successful access is well formed (parsing of malformed content is C06/C12/C13/C14)",
                "refusals (EACCES/EPERM) are injected on every access of the call -- per-process procfs paths of any pid and the files outside procfs (link targets, '(deleted)' paths, cmdline[0], tty nodes) -- except the global procfs files (/proc, /proc/net/*) and the /dev listing",
                "CPython exception matching and the os/io layer are modelled, not verified"]
-EXHAUSTIVE = {"quick": "all access indexes x {vanish, half-removed (live kind), EACCES} (EPERM at every eighth index) for every method and all four base kinds; other-process vanish at every index of the tree calls (live kind)",
+EXHAUSTIVE = {"quick": "live kind: all access indexes x {vanish, EACCES} (EPERM at every eighth index) for every method, half-removed at all indexes of calls with <= 24 accesses (else first/last/every third); other kinds: all indexes for the kind-dependent calls with <= 24 accesses, first/last/every third index otherwise; other-process vanish at every index of the tree calls (live kind); native: every nice value -20..19 x 6 kinds of earlier failing call",
               "thorough": "the same plus all two-fault sequences (deny at i, vanish at j>i)"}
 
 
@@ -122,6 +126,9 @@ def script_of(m, order=None):
 
 
 def coq_term(case):
+    if case.get("kind") == "native":
+        from props import _c03_native as N
+        return "run_nice (%d) (%d)" % (N.PRIOR_ERRNO[case["prior"]], case["nice"])
     sc = script_of(case["m"], case.get("ord"))
     if sc is None:
         return "JL []"
@@ -139,6 +146,8 @@ def coq_term(case):
 
 
 def coq_struct(case, raw):
+    if case.get("kind") == "native":
+        return {"model": raw[0], "spec": raw[1]}
     if not raw:
         return {"model": None, "spec": None}
     if case.get("then"):
@@ -195,6 +204,19 @@ FULL_AS_DICT = [None]      # (method name, iteration order) of as_dict() over al
 
 
 def gen_cases(rng, tier):
+    cases_native = []
+    from props import _c03_native as N
+    for n in range(-20, 20):                    # every nice value x every kind of earlier failure, through nice()
+        for prior in N.PRIORS:
+            cases_native.append({"kind": "native", "cls": "native", "nice": n, "prior": prior, "via": "nice",
+                                 "base": "real", "m": "nice"})
+    for n in (-20, -2, -1, 0, 1, 19):
+        for prior in ("none", "kill_dead", "psutil_dead"):
+            for via in ("as_dict", "iter"):
+                cases_native.append({"kind": "native", "cls": "native-" + via, "nice": n, "prior": prior, "via": via,
+                                     "base": "real", "m": via})
+    if tier == "search":
+        return cases_native
     ms = method_names()
     FULL_AS_DICT[0] = next(((m, o) for m, o in ms if m.startswith("as_dict:") and o and len(o) > 20), None)
     pairs = [(b, m, o) for b in W.KINDS for m, o in ms]
@@ -215,14 +237,23 @@ def gen_cases(rng, tier):
         else:
             ks = list(range(n))
         mk("dry", b, m, o, None, [])
+        # quick: exhaustive in k on the live kind; on the other kinds exhaustive for the calls whose ladders depend on
+        # the kind (links, cmdline, smaps, fd / task listings), first / last / every third k for the rest
+        sens = m.split(":")[0] in KIND_SENSITIVE or (m.startswith(("as_dict:", "oneshot")) and
+                                                     any(x in KIND_SENSITIVE for x in m.split(":", 1)[1].split(",")))
+        full = tier != "quick" or b == "live" or (sens and len(ks) <= 24)
         for k in ks:
+            if not (full or k in (0, 1, n - 1) or k % 3 == 0):
+                continue
             mk("V", b, m, o, k, [])
             mk("D-EACCES", b, m, o, None, [[k, "EACCES"]])
-            if tier != "quick" or k % 8 == 1:      # both errnos are PermissionError to Python; quick samples EPERM
+            if tier != "quick" or (b == "live" and k % 8 == 1):   # both errnos are PermissionError to Python
                 mk("D-EPERM", b, m, o, None, [[k, "EPERM"]])
         # V': half-removed at access k (issue 2418)
         if tier != "quick" or b == "live":
             for k in ks:
+                if tier == "quick" and len(ks) > 24 and not (k in (0, 1, n - 1) or k % 3 == 0):
+                    continue
                 mk("VH", b, m, o, k, [])
                 cases[-1]["h"] = True
         # another process (parent / child / listed pid) vanishes at access k
@@ -253,7 +284,7 @@ def gen_cases(rng, tier):
             for i in range(n):
                 for j in range(i + 1, n):
                     mk("DV", b, m, o, j, [[i, "EACCES" if (i + j) % 2 == 0 else "EPERM"]])
-    return cases
+    return cases_native + cases
 
 
 # ------------------------------------------------------------------ implementation side
@@ -272,6 +303,12 @@ def _canon_out(o):
 
 
 def impl_run(case, coq, env):
+    if case.get("kind") == "native":
+        from props import _c03_native as N
+        r = N.run(case)
+        if r[0] == "skip":
+            return T("Skip", r[1])
+        return T("Val", r[1]) if r[0] == "val" else T("Exc", T(r[1]))
     import errno as E
     import psutil
     from psutil import _pslinux
@@ -290,7 +327,9 @@ def impl_run(case, coq, env):
     deny = {int(k): getattr(E, e) for k, e in case.get("d", [])}
     for m2 in case.get("then") or []:
         if m2.startswith("as_dict:") and case.get("ord2"):
-            if list(psutil._as_dict_attrnames) != case["ord2"]:
+            attrs2 = m2.split(":", 1)[1].split(",")
+            real2 = list(psutil._as_dict_attrnames) if set(attrs2) == set(psutil._as_dict_attrnames) else list(set(attrs2))
+            if real2 != case["ord2"]:
                 return T("Skip", "as_dict attribute order differs from the one the case was generated for")
     r = W.run_case(env["work"], case["base"], m, vanish=case.get("v"), deny=deny, sticky=True,
                    ovanish={p: k for p, k in case.get("ov", [])}, half=bool(case.get("h")), then=case.get("then"))
@@ -361,6 +400,15 @@ def judge(case, coq, impl):
         return Verdict("skip", str(impl.get("a")))
     if isinstance(impl, dict) and impl.get("t") == "Timeout":
         return Verdict("violation", "the call did not terminate")
+    if case.get("kind") == "native":
+        what = "%s of a live process at nice %d, queried after %s in the same thread" % (
+            {"nice": "nice()", "as_dict": "as_dict(['nice'])", "iter": "process_iter(['nice'])"}[case["via"]],
+            case["nice"], {"none": "no failing call"}.get(case["prior"], "a failing call (%s)" % case["prior"]))
+        if impl != coq["spec"]:
+            return Verdict("violation", "%s: %s instead of %d" % (what, json.dumps(impl), case["nice"]))
+        if impl != coq["model"]:
+            return Verdict("corr", what + ": differs from the C model")
+        return Verdict("ok")
     why = oracle(case, impl)
     if why:
         return Verdict("violation", "%s.%s() [%s] %s" % (case["base"], case["m"], _sched(case), why))
@@ -385,6 +433,8 @@ def _sched(case):
 
 
 def nontrivial(case, coq, impl):
+    if case.get("kind") == "native":
+        return True
     if not isinstance(impl, list):
         return False
     n = len(impl[1])
@@ -406,7 +456,8 @@ MANIFEST = {
             "once gone for every OS-consulting query, the memoising accessors' exemption as a theorem about the script "
             "table, and refuted theorems about the code before the three repairs. Tie to the code: every access index x "
             "fault x base kind -- and two-call histories on one object -- is run on the real psutil and outcome + complete access "
-            "sequence are compared.",
+            "sequence are compared; the native getpriority path (errno explicit) is proved independent of the thread's "
+            "earlier failures and run on real children at every nice value.",
     "note": "Trusted: Coq kernel + vm_compute; the fault model (Spec.v base_ok / Model.v answer); hand-written scripts "
             "(tied by exhaustive fault enumeration of access sequences); harness shim. No call is oracle-only (as_dict() "
             "falls back to oracle-only if its attribute order cannot be determined).",
